@@ -252,7 +252,7 @@ def boot_groups(tag):
 
 def c04_groups(tier, tag='C04'):
     gs = boot_groups(tag)
-    gs.append(Group(tag + '.lemma.testvector', 'lemmas.c', 'h_lemma_testvector', backend='z3'))
+    gs.append(Group(tag + '.lemma.testvector', 'lemmas.c', 'h_lemma_testvector', backend='cadical', timeout=1500))
     gs.append(Group(tag + '.lemma.monomial', 'lemmas.c', 'h_lemma_monomial', backend='cadical', timeout=1500,
                     defines={'LEMMA_NMAX': 65536 if tier == 'quick' else (1 << 20)}, note='N <= 2^16 (quick) / 2^20 (thorough): beyond that no SAT solver finishes'))
     # callee contracts the skeleton relies on, enforced on their real bodies
